@@ -9,6 +9,8 @@
 (***************************************************************************)
 EXTENDS Integers, Sequences, FiniteSets
 
+CONSTANTS MemFactor, MemSlack     \* the memory clause: held <= MemFactor * (size + longest token + backlog) + MemSlack
+
 VARIABLES full,      \* all bytes the reader will deliver before it ends (ghost: known to the test, not to the lexer)
           endKind,   \* "eof" | "fail": how the reader ends after `full`
           rdN,       \* bytes the reader has handed to the lexer so far
@@ -81,15 +83,16 @@ Move(n, broken)   == absPos + n >= absStart /\ absPos + n <= N /\ absPos' = absP
 Rewind(m, broken) == m >= 0 /\ absStart + m <= N /\ absPos' = absStart + m /\ Stable(broken) /\ Mv
 
 \* a returned slice: n bytes, `same`: they equal full[absStart, absPos) at the time of the call
-Lexeme(id, n, same, broken) ==
+\* watch: the caller keeps this slice and will report it in `broken` if its bytes ever change
+Lexeme(id, n, same, watch, broken) ==
     /\ n = absPos - absStart /\ same /\ absPos <= N
-    /\ handed' = Keep(handed \cup {[id |-> id, hi |-> absPos]})
+    /\ handed' = Keep(IF watch THEN handed \cup {[id |-> id, hi |-> absPos]} ELSE handed)
     /\ Stable(broken)
     /\ UNCHANGED <<full, endKind, rdN, rdEnd, absStart, absPos, freed, reported, size, maxSpan, maxLag>>
-Shift(id, n, same, broken) ==
+Shift(id, n, same, watch, broken) ==
     /\ n = absPos - absStart /\ same /\ absPos <= N
     /\ rdN >= absPos                                      \* a shifted token has been read
-    /\ handed' = Keep(handed \cup {[id |-> id, hi |-> absPos]})
+    /\ handed' = Keep(IF watch THEN handed \cup {[id |-> id, hi |-> absPos]} ELSE handed)
     /\ absStart' = absPos
     /\ Stable(broken)
     /\ UNCHANGED <<full, endKind, rdN, rdEnd, absPos, freed, reported, size, maxSpan, maxLag>>
@@ -109,7 +112,7 @@ ShiftLen(r, broken) ==
 
 \* memory held by the lexer (all buffers it keeps alive): bounded by buffer size + longest token (+ unfreed backlog),
 \* never by the length of the stream.  The factor is generous; a leak grows without bound.
-MemBound == 16 * (size + maxSpan + maxLag) + 64
+MemBound == MemFactor * (size + maxSpan + maxLag) + MemSlack
 Held(bytes, broken) == bytes <= MemBound /\ Stable(broken) /\ UNCHANGED maxSpan /\ Obs
 
 Inv == TypeOK
